@@ -901,3 +901,18 @@ Proof.
 Qed.
 
 End LU.
+
+(* statement pinned in Props/C04.v *)
+Lemma band_solve_sound_full {A : Arith} (FL : FieldLaws A) (B : banded A) (b x : list A) :
+  wfB B -> length b = bn B -> bm1 B <= bn B ->
+  band_solve B b = Ok x ->
+  length x = bn B /\ dense_mulv B x = b /\
+  forall B' x', same_in_matrix_slots B B' -> band_solve B' b = Ok x' -> dense_mulv B x' = b.
+Proof.
+  intros Hwf Hb Hm1 H. destruct (band_solve_sound_lemma FL B b x Hwf Hb Hm1 H) as (Hl & Hs).
+  split; auto. split; auto.
+  intros B' x' HS H'. pose proof HS as (Hwf' & Hn & H1 & H2 & _).
+  destruct (band_solve_sound_lemma FL B' b x') as (Hl' & Hs'); auto; try congruence.
+  rewrite <- Hs'. unfold dense_mulv. rewrite Hn. apply map_ext_in. intros i Hi. apply in_seq in Hi.
+  apply sum_n_ext. intros j Hj. now rewrite (dense_entry_same B B') by (auto; lia).
+Qed.
